@@ -8,6 +8,9 @@ Stage C  for every registered class: real `cls.to_numpy(msgs)` vs the Lean evalu
          objects (sent as field-path -> value maps), real `MessageData.to_numpy(remove_nan_times=..)` vs the Lean
          `removeNan` applied to the real dictionary.
 Stage D  the property statement directly against the real output (independent of table and model).
+
+Inputs: random objects with pairwise distinct values (`cases`), and for every integer-valued field the boundary values of its
+wire type (`wire_cases`; the range of a field is what survives pack()/unpack()), as attributes and as produced by unpack().
 """
 import enum
 import json
@@ -53,14 +56,23 @@ def is_num_array(a):
     return isinstance(a, np.ndarray) and a.dtype.kind in 'fiub'
 
 
-def val_text(v):
-    """Lean `Val` text of one attribute value, or 'o' (no numeric content)."""
+def number_list(v):
+    """a non-empty plain list of numbers (what a construct-based unpack() leaves where __init__ put an ndarray)"""
+    return isinstance(v, list) and len(v) > 0 and all(scalar_text(x) is not None and not isinstance(x, enum.Enum) for x in v)
+
+
+def val_text(v, lists=False):
+    """Lean `Val` text of one attribute value, or 'o' (no numeric content).  `lists`: a plain list of numbers is sent as a
+    vector (np.array([...]) of lists stacks them exactly like 1-D arrays; the generic path however tests isinstance(ndarray),
+    so there a list stays 'o' = decided by running only)."""
     from fusion_engine_client.messages.timestamp import Timestamp
     if isinstance(v, Timestamp):
         return 't%x' % fbits(v.seconds)
     s = scalar_text(v)
     if s is not None:
         return s
+    if lists and number_list(v):
+        return 'v' + '/'.join(scalar_text(x) for x in v)
     if is_num_array(v):
         if v.ndim == 1:
             return 'v' + '/'.join(scalar_text(x) for x in v)
@@ -78,7 +90,7 @@ def get_path(obj, path):
     return obj
 
 
-def msg_map(obj, extra_paths=()):
+def msg_map(obj, extra_paths=(), lists=False):
     """field path -> value text: every attribute (recursively through nested objects), plus the table's paths that are not
     plain attributes (resolved by `__getattr__`, or method calls)."""
     res = {}
@@ -86,7 +98,7 @@ def msg_map(obj, extra_paths=()):
     def walk(o, prefix, depth):
         for k, v in vars(o).items():
             p = prefix + k
-            res[p] = val_text(v)
+            res[p] = val_text(v, lists)
             if res[p] == 'o' and hasattr(v, '__dict__') and not isinstance(v, (enum.Enum, type)) and depth < 3:
                 walk(v, p + '.', depth + 1)
     walk(obj, '', 0)
@@ -94,7 +106,7 @@ def msg_map(obj, extra_paths=()):
         p = '.'.join(path)
         if p and p not in res:
             try:
-                res[p] = val_text(get_path(obj, path))
+                res[p] = val_text(get_path(obj, path), lists)
             except AttributeError:
                 pass
     return res
@@ -297,27 +309,42 @@ def numeric(v):
         return float(v)
     if is_num_array(v):
         return v
+    if number_list(v):
+        a = np.array(list(v))
+        return a if is_num_array(a) else None
     return None
 
 
+def exact_array(vals):
+    """np.array(vals), except that a list of integers is never handed to numpy's dtype inference (which turns a mix of values
+    below and above 2**63 into float64): the expected values stay the Python integers the fields hold"""
+    if len(vals) > 0 and all(isinstance(v, int) and not isinstance(v, bool) for v in vals):
+        return np.array([int(v) for v in vals], dtype=object)
+    return np.array(vals)
+
+
 def same_numbers(a, b):
-    """elementwise: equal integers, bit-identical floats (any NaN equals any NaN)"""
+    """elementwise: bit-identical floats (any NaN equals any NaN); where an integer is involved, exact equality of the
+    mathematical values (no comparison after rounding one side to binary64); `b` may be an object array of Python ints"""
     a = np.asarray(a)
     b = np.asarray(b)
     if a.shape != b.shape:
         return False
     if a.size == 0:
         return True
-    if a.dtype.kind not in 'fiub' or b.dtype.kind not in 'fiub':
+    if b.dtype.kind == 'O' and all(isinstance(x, int) and not isinstance(x, bool) for x in b.flat):
+        pass
+    elif b.dtype.kind not in 'fiub':
+        return False
+    if a.dtype.kind not in 'fiub':
         return False
     if a.dtype.kind == 'f' and a.dtype != np.float64:
         return False                      # narrower float: precision lost
-    af = a.astype(np.float64) if a.dtype.kind != 'f' else a
-    bf = b.astype(np.float64) if b.dtype.kind != 'f' else b
-    if a.dtype.kind in 'iub' and b.dtype.kind in 'iub':
-        return bool(np.all(a.astype(object) == b.astype(object)))
-    nan = np.isnan(af) & np.isnan(bf)
-    return bool(np.all(nan | (af.view(np.uint64) == bf.view(np.uint64)) | ((af == bf) & (a.dtype.kind != b.dtype.kind))))
+    if a.dtype.kind == 'f' and b.dtype.kind == 'f':
+        bf = b.astype(np.float64)
+        return bool(np.all((np.isnan(a) & np.isnan(bf)) | (a.view(np.uint64) == bf.view(np.uint64))))
+    # Python's == between int and float (and between ints) is exact
+    return all(x == y for x, y in zip(a.astype(object).flat, b.astype(object).flat))
 
 
 def time_axis(a, n):
@@ -337,10 +364,13 @@ def time_axis(a, n):
 class Case:
     def __init__(self, cls, owner, msgs, how):
         self.cls, self.owner, self.msgs, self.how = cls, owner, msgs, how
+        self.packed = None      # form 'unpack': the bytes every message was unpacked from
 
     def replay(self, extra=None):
         r = {'class': self.cls.__name__, 'to_numpy_of': self.owner, 'how': self.how,
              'messages': [encode_obj(m) for m in self.msgs]}
+        if self.packed is not None:
+            r['unpacked_from_hex'] = [d.hex() for d in self.packed]
         if extra:
             r.update(extra)
         return r
@@ -415,7 +445,7 @@ def oracle_to_numpy(ctx, case, real):
         if any(v is None for v in vals):
             continue                       # not a numeric field (str, bytes, tuple, None ...)
         try:
-            exp = np.array(vals)
+            exp = exact_array(vals)
         except ValueError:
             continue
         got = out
@@ -608,6 +638,228 @@ def subsets(rng, n, k):
     return out
 
 
+# ---- integer-valued fields: wire ranges, boundary values, the two ways a message object comes into being -------------
+FMT_RANGE = {'b': (-2 ** 7, 2 ** 7 - 1), 'B': (0, 2 ** 8 - 1), 'h': (-2 ** 15, 2 ** 15 - 1), 'H': (0, 2 ** 16 - 1),
+             'i': (-2 ** 31, 2 ** 31 - 1), 'I': (0, 2 ** 32 - 1), 'l': (-2 ** 31, 2 ** 31 - 1), 'L': (0, 2 ** 32 - 1),
+             'q': (-2 ** 63, 2 ** 63 - 1), 'Q': (0, 2 ** 64 - 1)}
+_WIRE = {}
+
+
+def is_int_value(v):
+    return isinstance(v, (int, np.integer)) and not isinstance(v, (bool, np.bool_, enum.Enum))
+
+
+def set_path(obj, path, value):
+    for seg in path[:-1]:
+        obj = getattr(obj, seg)
+    setattr(obj, path[-1], value)
+
+
+def roundtrip(cls, obj):
+    """the object unpack() produces from the bytes pack() wrote"""
+    import warnings
+    with warnings.catch_warnings():
+        warnings.simplefilter('ignore')
+        data = bytes(obj.pack())
+        p = cls()
+        p.unpack(data)
+    return p, data
+
+
+def int_field_paths(obj):
+    """[(path, shape or None)] of the integer-valued attributes (no bools, no enum members): scalars and integer arrays, of
+    the object and of its embedded measurement details"""
+    from fusion_engine_client.messages.measurement_details import MeasurementDetails
+    res = []
+
+    def walk(o, pre, depth):
+        for k, v in vars(o).items():
+            if is_int_value(v):
+                res.append((pre + (k,), None))
+            elif is_num_array(v) and v.dtype.kind in 'iu' and v.size > 0:
+                res.append((pre + (k,), v.shape))
+            elif isinstance(v, MeasurementDetails) and depth < 2:
+                walk(v, pre + (k,), depth + 1)
+    walk(obj, (), 0)
+    return res
+
+
+def construct_range(cls, name):
+    """the range of the FormatField called `name` in a construct.Struct attribute of the class (None: no such declaration)"""
+    try:
+        import construct
+    except ImportError:
+        return None
+    for k in cls.__mro__:
+        for st in vars(k).values():
+            if not isinstance(st, construct.Struct):
+                continue
+            for sc in st.subcons:
+                if getattr(sc, 'name', None) != name:
+                    continue
+                while not isinstance(sc, construct.FormatField) and hasattr(sc, 'subcon'):
+                    sc = sc.subcon
+                if isinstance(sc, construct.FormatField) and sc.fmtstr[-1] in FMT_RANGE:
+                    return FMT_RANGE[sc.fmtstr[-1]]
+    return None
+
+
+def wire_range(cls, path, shape):
+    """(lo, hi, how) of the values the field can carry on the wire, found by asking pack()/unpack() (a value is in range iff a
+    fresh object holding it comes back from its own bytes unchanged); None if that cannot be established"""
+    key = (cls, path)
+    if key in _WIRE:
+        return _WIRE[key]
+
+    def ok(v):
+        o = cls()
+        try:
+            if shape is None:
+                set_path(o, path, v)
+            else:
+                a = get_path(o, path).copy()
+                a.flat[0] = v
+                if int(a.flat[0]) != v:
+                    return False
+                set_path(o, path, a)
+            r = get_path(roundtrip(cls, o)[0], path)
+            if shape is not None:
+                r = np.asarray(r).flat[0]
+        except Exception:     # noqa  (struct.error, construct errors, OverflowError, TypeError of an unpackable default ...)
+            return False
+        return is_int_value(r) and int(r) == v
+    res = None
+    if ok(1) and ok(2):
+        signed = ok(-1)
+        best = None
+        for bits in (8, 16, 32, 64):
+            lo, hi = (-2 ** (bits - 1), 2 ** (bits - 1) - 1) if signed else (0, 2 ** bits - 1)
+            if ok(lo) and ok(hi) and ok(hi - 1):
+                best = (lo, hi)
+            else:
+                break
+        if best is not None and not ok(best[1] + 1) and not ok(best[0] - 1):
+            res = (best[0], best[1], 'pack/unpack round trip')
+    if res is None and shape is None and len(path) == 1:
+        r = construct_range(cls, path[0])
+        if r is not None:
+            res = (r[0], r[1], 'construct declaration')
+    _WIRE[key] = res
+    return res
+
+
+def boundary_values(lo, hi):
+    c = {lo, lo + 1, hi - 1, hi, -1, 0, 1, 2 ** 31 - 1, 2 ** 31, 2 ** 32 - 1, 2 ** 32, 2 ** 53 + 1, 2 ** 63 - 1, 2 ** 63,
+         2 ** 64 - 1, -2 ** 31, -2 ** 31 - 1, -(2 ** 53 + 1)}
+    return sorted(v for v in c if lo <= v <= hi)
+
+
+def wire_fields(ctx, cls):
+    """([(path, shape, lo, hi)], [(path, default value)] of the integer fields whose range could not be established)"""
+    known, unknown = [], []
+    dflt = cls()
+    for path, shape in int_field_paths(dflt):
+        r = wire_range(cls, path, shape)
+        name = '%s.%s' % (cls.__name__, '.'.join(path))
+        if r is None:
+            unknown.append((path, get_path(dflt, path)))
+            lst = ctx.cov.setdefault('integer_fields_without_established_wire_range', [])
+            if name not in lst:
+                lst.append(name)
+        else:
+            known.append((path, shape, r[0], r[1]))
+            ctx.cov.setdefault('integer_field_wire_ranges', {})[name] = '%d..%d (%s)' % r
+    return known, unknown
+
+
+def random_in_range(rng, lo, hi):
+    """a value of the range with a random magnitude (uniform values would nearly always be huge)"""
+    span = hi - lo
+    v = lo + (rng.getrandbits(rng.randrange(1, span.bit_length() + 1)) % (span + 1))
+    return hi - (v - lo) if rng.random() < 0.3 else v
+
+
+def make_wire_case(ctx, cls, owner, known, unknown, values, invalid, how, form):
+    """values: one {path: value} per message for the integer fields (missing = a random value of the field's range).
+    form 'attr': the values are stored into the attributes of a filled object; form 'unpack': that object is packed and the
+    message handed to to_numpy is what unpack() makes of the bytes."""
+    rng = ctx.rng
+    for minimal in (False, True):
+        dist = Distinct(rng)
+        enum_pos = {}
+        msgs = []
+        for i, vals in enumerate(values):
+            m = cls() if minimal else fill(cls(), dist, rng, enum_pos)
+            if minimal and 'p1_time' in vars(m):
+                set_p1(m, dist.flt())
+            for path, dflt in unknown:
+                set_path(m, path, dflt)
+            for path, shape, lo, hi in known:
+                v = vals.get(path)
+                if shape is None:
+                    set_path(m, path, random_in_range(rng, lo, hi) if v is None else v)
+                else:
+                    a = get_path(m, path)
+                    xs = v if v is not None else [random_in_range(rng, lo, hi) for _ in range(a.size)]
+                    set_path(m, path, np.array(xs, dtype=a.dtype).reshape(shape))
+            if i in invalid:
+                set_p1(m, float('nan'))
+            msgs.append(m)
+        if form == 'attr':
+            return Case(cls, owner, msgs, how + '/attr')
+        try:
+            pairs = [roundtrip(cls, m) for m in msgs]
+        except Exception:     # noqa  (pack()/unpack() are not this property's subject: the form is unavailable for this object)
+            continue
+        case = Case(cls, owner, [p for p, _ in pairs], how + '/unpack')
+        case.packed = [d for _, d in pairs]
+        return case
+    ctx.count('unpack_form_unavailable_' + cls.__name__)
+    return None
+
+
+def wire_cases(ctx, cls, owner, reps, maxn):
+    """boundary values of the wire type of every integer field: each value alone, every pair of neighbouring boundaries and
+    the two extremes together (what decides the dtype numpy infers), all of them in one list; random in-range values"""
+    rng = ctx.rng
+    known, unknown = wire_fields(ctx, cls)
+    if not known:
+        return
+    bv = {path: boundary_values(lo, hi) for path, _, lo, hi in known}
+    shapes = {path: shape for path, shape, _, _ in known}
+    kmax = max(len(b) for b in bv.values())
+
+    def at(path, fi, i):
+        b = bv[path]
+        if shapes[path] is None:
+            return b[(i + fi) % len(b)]
+        return [b[(i + fi + j) % len(b)] for j in range(int(np.prod(shapes[path])))]
+
+    def msg(i, rot):
+        # rot: fields are rotated against each other, so that same-typed fields hold different values in one message
+        return {path: at(path, fi if rot else 0, i) for fi, path in enumerate(bv)}
+    lists = []
+    for i in range(kmax):
+        lists.append(('boundary-single', [msg(i, False)]))
+        lists.append(('boundary-pair', [msg(i, True), msg(i + 1, True)]))
+    lists.append(('boundary-extremes', [msg(0, False), msg(-1, False)]))
+    lists.append(('boundary-extremes', [msg(-1, False), msg(0, False), msg(1, False)]))
+    lists.append(('boundary-all', [msg(i, True) for i in range(kmax)]))
+    lists.append(('boundary-all', [msg(i, False) for i in reversed(range(kmax))]))
+    for _ in range(reps):
+        n = rng.randrange(1, maxn + 1)
+        lists.append(('wire-random', [{path: (at(path, rng.randrange(64), rng.randrange(64)) if rng.random() < 0.4 else None)
+                                       for path in bv} for _ in range(n)]))
+    for how, values in lists:
+        n = len(values)
+        for form in ('attr', 'unpack'):
+            invalid = set() if rng.random() < 0.6 else {i for i in range(n) if rng.random() < 0.4}
+            case = make_wire_case(ctx, cls, owner, known, unknown, values, invalid, how, form)
+            if case is not None:
+                ctx.count('wire_' + how + '_' + form)
+                yield case
+
+
 def cases(ctx, classes, reps, maxn):
     from fusion_engine_client.messages.solution import CalibrationStage
     from fusion_engine_client.messages.measurement_details import SystemTimeSource
@@ -617,6 +869,8 @@ def cases(ctx, classes, reps, maxn):
     for cls, owner in targets():
         ci = by_name.get(owner)
         has_details = 'details' in vars(cls()) or owner == 'MeasurementDetails'
+        for case in wire_cases(ctx, cls, owner, reps, maxn):
+            yield case
         for n in range(0, maxn + 1):
             subs = subsets(rng, n, reps)
             for s in subs:
@@ -666,7 +920,7 @@ def judge_all(ctx, classes, batch):
             paths += [q for e in nx.flat_entries(classes, ci) if e.kind[0] == 'fillNaN' for q in (e.kind[1], e.kind[2])]
             if ci.prelude[0] == 'trimLeadingEq':
                 paths.append(ci.prelude[1])
-            maps = [msg_map(m, paths) for m in case.msgs]
+            maps = [msg_map(m, paths, lists=True) for m in case.msgs]
             lines.append('np_tonumpy %s %s' % (case.owner, msgs_text(maps)))
         item = {'case': case, 'real': real, 'tn': len(lines) - 1, 'md': []}
         if hasattr(case.cls, 'MESSAGE_TYPE') and 'p1_time' in real:
@@ -831,7 +1085,13 @@ def check(ctx):
                        'nested MeasurementDetails) holds a value distinct from every other value in the list; x subsets of '
                        'messages with an invalid (NaN) P1 time (none, all, each single one, random); x for classes with measurement '
                        'details random time sources; x for CalibrationStatus all stage sequences up to length 3; each through '
-                       'cls.to_numpy and MessageData.to_numpy(remove_nan_times=True/False). Non-trivial = at least one message; '
+                       'cls.to_numpy and MessageData.to_numpy(remove_nan_times=True/False); x for every integer-valued field '
+                       '(scalar or integer array, of the message or its measurement details) the boundary values of its wire type '
+                       '(range established per field by pack()/unpack() round trips, else from the construct declaration: min, '
+                       'min+1, -1, 0, 1, max-1, max, 2^31-1, 2^31, 2^32-1, 2^32, 2^53+1, 2^63-1, 2^63, 2^64-1 as far as in range): '
+                       'each alone, neighbouring pairs, the extremes together, all in one list, random in-range values - the '
+                       'objects once with the values stored as attributes and once as unpack() returns them from packed bytes; '
+                       'integers are compared exactly (never after rounding to binary64). Non-trivial = at least one message; '
                        'distinct = distinct model request' % (8 if ctx.thorough else 5))
     ctx.assumptions += [
         'the extracted table (Generated/Numpy.lean) is the model of the to_numpy sources: validated on every run by evaluating it '
@@ -865,7 +1125,14 @@ def replay(ctx, path):
     if cls is None:
         raise fv.InfraError('unknown class %s' % r['class'])
     owner = next(o for c, o in targets() if c is cls)
-    msgs = [decode_obj(cls, mp) for mp in r['messages']]
+    if r.get('unpacked_from_hex') is not None:
+        msgs = []
+        for h in r['unpacked_from_hex']:
+            m = cls()
+            m.unpack(bytes.fromhex(h))
+            msgs.append(m)
+    else:
+        msgs = [decode_obj(cls, mp) for mp in r['messages']]
     case = Case(cls, owner, msgs, 'replay')
     done = False
     if classes is not None:
